@@ -11,6 +11,7 @@ import (
 	"testing"
 	"time"
 
+	"github.com/form3tech-oss/f1/v2/internal/metrics"
 	"github.com/form3tech-oss/f1/v2/internal/options"
 	"github.com/form3tech-oss/f1/v2/internal/progress"
 	"github.com/form3tech-oss/f1/v2/internal/run"
@@ -187,12 +188,42 @@ func TestC19(t *testing.T) {
 			Period: time.Duration(kit.Pick(r, int64(1_000_000_000), 10_000_000_000))}
 		res := run.VerifResultFrom(opts, errs, snap)
 		res.LogFilePath = "/tmp/x.log"
-		var sum, prog string
-		crashed, _ := kit.Guard(func() { sum = res.Summary().VerifRender(false); prog = res.Progress().VerifRender(false) })
 		eo := "[]"
 		if len(errs) > 0 {
 			eo = kit.List(kit.Str("setup failed"))
 		}
+		if r.Chance(50) {
+			// the life cycle of a real run: iterations are recorded, the totals are taken, then the
+			// scenario teardown may still add an error before the summary is rendered
+			succ, fail, drop = uint64(r.Range(0, 40)), uint64(kit.Pick(r, int64(0), r.Range(0, 6))), uint64(kit.Pick(r, int64(0), r.Range(0, 3)))
+			res = run.VerifResultFrom(opts, errs, progress.Snapshot{})
+			res.LogFilePath = "/tmp/x.log"
+			st := res.VerifStats()
+			for k := uint64(0); k < succ; k++ {
+				st.Record(metrics.SuccessResult, int64(genDur(r)%1_000_000_000)+1)
+			}
+			for k := uint64(0); k < fail; k++ {
+				st.Record(metrics.FailedResult, int64(genDur(r)%1_000_000_000)+1)
+			}
+			for k := uint64(0); k < drop; k++ {
+				st.Record(metrics.DroppedResult, 0)
+			}
+			res.GetTotals()
+			if r.Chance(40) {
+				res.AddError(errors.New("teardown failed"))
+			}
+			sn := res.Snapshot()
+			ss, fs, ps = sn.SuccessfulIterationDurations, sn.FailedIterationDurations, sn.SuccessfulIterationDurationsForPeriod
+			snap.Period = sn.Period
+			if e := res.Error(); e != nil {
+				eo = kit.List(kit.Str(e.Error()))
+			}
+			o.Count("glue", "recorded, totals, late error")
+		} else {
+			o.Count("glue", "snapshot set directly")
+		}
+		var sum, prog string
+		crashed, _ := kit.Guard(func() { sum = res.Summary().VerifRender(false); prog = res.Progress().VerifRender(false) })
 		o.Case("summary_glue", []string{eo, kit.Str("/tmp/x.log"), encSnap(ss), encSnap(fs), encSnap(ps), kit.I(succ), kit.I(fail), kit.I(drop),
 			kit.B(opts.IgnoreDropped), kit.I(opts.MaxFailures), kit.I(opts.MaxFailuresRate), kit.I(int64(snap.Period))},
 			kit.Res(crashed, nil, kit.List(kit.Str(sum), kit.Str(prog))), "glue", "nt")
